@@ -425,8 +425,13 @@ class TabWorld:
                        key=lambda k: int(k.rsplit("_", 1)[1]))
         return [self.tables[n] for n in names]
 
-    def _check_merge(self, runs, got, descending, what, sig):
+    def _check_merge(self, runs, got, descending, what, sig, cols=None):
         exp = [r for t in runs for r in t["rows"]]
+        sp = 0
+        if cols is not None:
+            pidx = [runs[0]["columns"].index(c) for c in cols]
+            exp = [[r[i] for i in pidx] for r in exp]
+            sp = cols.index(runs[0]["columns"][0])
         def key(r):  # numbers compare by value (a chunk of whole numbers may come back as ints)
             return tuple(repr(x) if isinstance(x, (bool, str)) else repr(float(x)) if isinstance(x, (int, float)) else repr(x)
                          for x in r)
@@ -436,26 +441,29 @@ class TabWorld:
             raise OracleViolation("merge_multiset", f"{what}: output is not the union of the inputs ({len(got)} rows out, "
                                   f"{len(exp)} in; {'rows lost' if miss > 0 else 'rows duplicated or altered'})",
                                   lost=miss > 0, **sig)
-        sc = [float(r[0]) for r in got]
+        sc = [float(r[sp]) for r in got]
         for i in range(1, len(sc)):
             if (sc[i] > sc[i - 1]) if descending else (sc[i] < sc[i - 1]):
                 raise OracleViolation("merge_order", f"{what}: score order broken at output row {i} ({sc[i - 1]} -> {sc[i]})", **sig)
 
-    def _check_merge_prefix(self, runs, got, descending, what, sig):
+    def _check_merge_prefix(self, runs, got, descending, what, sig, cols=None):
         """A merge abandoned after len(got) rows: they must be the best len(got) scores, in order, each an input row."""
         def key(r):
             return tuple((float(x) if isinstance(x, (int, float)) and not isinstance(x, bool) else x) for x in r)
 
+        pidx = list(range(len(runs[0]["columns"]))) if cols is None else [runs[0]["columns"].index(c) for c in cols]
+        sp = 0 if cols is None else cols.index(runs[0]["columns"][0])
         pool = {}
         for t in runs:
             for r in t["rows"]:
+                r = [r[i] for i in pidx]
                 pool[key(r)] = pool.get(key(r), 0) + 1
         for r in got:
             if pool.get(key(r), 0) <= 0:
                 raise OracleViolation("merge_multiset", f"{what}: row {r} is not an input row (or was delivered twice)", **sig)
             pool[key(r)] -= 1
         want = sorted((float(r[0]) for t in runs for r in t["rows"]), reverse=descending)[: len(got)]
-        have = [float(r[0]) for r in got]
+        have = [float(r[sp]) for r in got]
         if have != want:
             raise OracleViolation("merge_order", f"{what}: the first {len(got)} rows carry scores {have[:6]}, the best "
                                   f"{len(got)} of the inputs are {want[:6]}", **sig)
@@ -498,7 +506,7 @@ class TabWorld:
                           {"impl": "merge_sort", "fmt": runs[0]["fmt"]})
         return got
 
-    def op_merge_readers(self, group, mode, row_type, reader_chunk, out_chunk, take=None):
+    def op_merge_readers(self, group, mode, row_type, reader_chunk, out_chunk, take=None, col_pick=None):
         """MergedTabularDataReader via read / chunked / row iterator / merge_readers."""
         from mokapot.streaming import MergedTabularDataReader, merge_readers
         from mokapot.tabular_data import TableType, TabularDataReader
@@ -511,25 +519,46 @@ class TabWorld:
         if not self._same_types(readers):
             return
         cols = runs[0]["columns"]
-        what = f"MergedTabularDataReader.{mode} over {len(runs)} {runs[0]['fmt']} runs ({'desc' if desc else 'asc'}, reader chunk {reader_chunk})"
+        all_cols = cols
+        want_cols = None
+        if col_pick and mode != "merge_readers":
+            # a projection: requested columns in another order / a subset (the score column always among them)
+            idx = []
+            for p_ in col_pick:
+                p_ = p_ % len(all_cols)
+                if p_ not in idx:
+                    idx.append(p_)
+            if 0 not in idx:
+                idx.append(0)
+            want_cols = [all_cols[i] for i in idx]
+            cols = want_cols
+            self.stats["merges_with_projection"] = self.stats.get("merges_with_projection", 0) + 1
+            if want_cols.index(all_cols[0]) != 0:
+                self.stats["projection_moves_score_column"] = self.stats.get("projection_moves_score_column", 0) + 1
+        what = f"MergedTabularDataReader.{mode} over {len(runs)} {runs[0]['fmt']} runs ({'desc' if desc else 'asc'}, reader chunk {reader_chunk}, columns={want_cols})"
         sig = {"impl": "table_merger", "mode": mode, "fmt": runs[0]["fmt"]}
+        if want_cols is not None:
+            sig["projection"] = True
         if mode == "merge_readers":
             it = merge_readers(readers, "score", descending=desc, reader_chunk_size=reader_chunk)
             got = [frame_rows(ch, cols)[0] for ch in it]
         else:
             m = MergedTabularDataReader(readers, "score", descending=desc, reader_chunk_size=reader_chunk)
             if mode == "read":
-                got = frame_rows(m.read(), cols)
+                whole = m.read(columns=want_cols)
+                if want_cols is not None and list(whole.columns) != want_cols:
+                    raise OracleViolation("merge_columns", f"{what}: returned columns {list(whole.columns)}", **sig)
+                got = frame_rows(whole, cols)
             elif mode == "chunked":
                 got = []
-                for ch in m.get_chunked_data_iterator(chunk_size=out_chunk):
+                for ch in m.get_chunked_data_iterator(chunk_size=out_chunk, columns=want_cols):
                     if len(ch) > out_chunk:
                         raise OracleViolation("merge_chunk_size", f"{what}: chunk of {len(ch)} rows for chunk_size {out_chunk}", **sig)
                     got.extend(frame_rows(ch, cols))
             else:
                 rt = TableType[row_type]
                 got = []
-                row_it = m.get_row_iterator(row_type=rt)
+                row_it = m.get_row_iterator(columns=want_cols, row_type=rt)
                 if take is not None:
                     import itertools
 
@@ -544,14 +573,14 @@ class TabWorld:
         if take is not None and mode == "rows":
             self.stats["abandoned_merges"] = self.stats.get("abandoned_merges", 0) + 1
             sig["abandoned"] = True
-            self._check_merge_prefix(runs, got, desc, what + f" abandoned after {take} rows", sig)
+            self._check_merge_prefix(runs, got, desc, what + f" abandoned after {take} rows", sig, cols=want_cols)
             return got
         self.stats["merges"] += 1
         all_sc = [r[0] for t in runs for r in t["rows"]]
         if len(set(all_sc)) < len(all_sc):
             self.stats["tie_merges"] += 1
         self.kinds.add(("table_merger", mode, row_type if mode == "rows" else "", runs[0]["fmt"], desc, reader_chunk < 4))
-        self._check_merge(runs, got, desc, what, sig)
+        self._check_merge(runs, got, desc, what, sig, cols=want_cols)
         return got
 
     def op_unsorted_fault(self, group, run_index, i, j, reader_chunk):
